@@ -51,7 +51,16 @@ def model_line(scenario, kind='rat'):
             after, at = x[3], x[4]
             return ['spawn', x[1], x[2], T(after), T(at), x[5], fix(x[6])]
         if isinstance(x, list):
-            return [fix(e) for e in x]
+            out = []
+            for e in x:
+                if isinstance(e, list) and e and e[0] in ('borrowlater', 'claimlater'):
+                    # ['claimlater', res, amounts, bind, d, body...]: the context object is made, `d` passes, the block is entered.
+                    # What the object promises is decided on entry, so for the machine this is `sleep d; claim ...`
+                    out.append(['sleep', e[4]])
+                    out.append(fix([e[0][:-5]] + e[1:4] + e[5:]))
+                else:
+                    out.append(fix(e))
+            return out
         return x
 
     class T:
@@ -497,6 +506,7 @@ class Interp:
             v = await self.chans[s[1]]
             self.emit(label, 'got', [v, s[1], sid])
         elif h == 'cclose':
+            self.emit(label, 'cclose', [s[1]])
             await self.chans[s[1]].close()
         elif h == 'citer':
             n = 0
@@ -522,7 +532,16 @@ class Interp:
             await self.tracked[s[1]].set(s[2])
         elif h == 'addtracked':
             await (self.tracked[s[1]] + s[2])
+        elif h in ('borrowlater', 'claimlater'):
+            r = self.res.get(s[1])
+            made = None
+            if r is not None:
+                made = (r.borrow if h == 'borrowlater' else r.claim)(**self.amounts(s[2]))
+            await self.stmt(label, ['sleep', s[4]])
+            self._premade = made
+            await self.stmt(label, [h[:-5]] + list(s[1:4]) + list(s[5:]))
         elif h in ('borrow', 'claim'):
+            premade, self._premade = getattr(self, '_premade', None), None
             self.emit(label, 'breq', [s[1], 1 if h == 'claim' else 0] + list(s[2]))
             r = self.res.get(s[1])
             if r is None:
@@ -530,7 +549,7 @@ class Interp:
                 self.emit(label, 'bexit', [s[1], 0])
                 return
             try:
-                cm = (r.borrow if h == 'borrow' else r.claim)(**self.amounts(s[2]))
+                cm = premade if premade is not None else (r.borrow if h == 'borrow' else r.claim)(**self.amounts(s[2]))
                 self.res[s[3]] = cm
                 async with cm:
                     self.emit(label, 'benter', list(s[2]))
